@@ -54,7 +54,8 @@ In(m, fl) == fl \in m.fl
 (*   st     os.stat(abs_path): "ok" | "noent" | "notdir" | "acces"         *)
 (*   kind   "file" | "dir" | "fifo" | "other" (socket, device) | "none"    *)
 (*   r,w,x  os.access(abs_path, R_OK / W_OK / X_OK)                        *)
-(*   pdir   the parent of the resolved path is a directory                 *)
+(*   pdir   the parent of the resolved path (os.path.realpath: symlinks    *)
+(*          are followed BEFORE a following ".." is applied) is a directory*)
 (*   pw     ... and os.access(parent, W_OK)                                *)
 (*   nedir  the nearest EXISTING ancestor is a directory                   *)
 (*   ndw    the nearest ancestor that IS a directory is writeable          *)
@@ -65,7 +66,9 @@ Consistent(F) ==
   /\ (F.st = "ok") <=> (F.kind # "none")
   /\ F.st # "ok" => (~F.r /\ ~F.w /\ ~F.x)
   /\ F.st = "ok" => F.pdir
-  /\ F.st = "notdir" => (~F.pdir /\ ~F.nedir)      \* a regular file is in the way
+  \* st = "notdir" (a regular file is in the way): x/file/below has no parent directory and no existing directory above
+  \* it but the file; x/file/../y has -- the parent facts are those of os.path.realpath, which drops "file/.." textually
+  /\ (F.st = "notdir" /\ ~F.pdir) => TRUE
   /\ F.st = "noent" => F.nedir
   /\ F.pdir => (F.nedir /\ F.ndw = F.pw)
   /\ ~F.pdir => ~F.pw
